@@ -31,4 +31,4 @@ pub broadcast group g_shape_rw {
     crate::vp_bytes::g_bytes, vstd::layout::group_layout_axioms, crate::vp_io::g_ws, crate::vp_io::g_rs,
     crate::vp_io::lemma_splice_len, crate::vp_io::g_wr, crate::vl_types::lemma_discriminants, crate::vl_layout::ax_size_of_point,
 }
-}
+} // mod vp_all
